@@ -187,9 +187,15 @@ Definition of_call (c : call) : wtree :=
   let '(p, f, a) := c in
   W 83 [] [of_path p; of_str 0 f; W 5 [] (map (fun kv => W 51 [] [of_str 0 (fst kv); of_value (snd kv)]) a)].
 
+Definition cause_code (c : cause) : N :=
+  match c with
+  | CauseArgs => 0 | CauseRaise => 1 | CauseNull => 2 | CauseNonList => 3 | CauseLeaf => 4 | CauseType => 5
+  end.
+Definition of_err (e : err) : wtree := W 84 [cause_code (snd e)] [of_path (fst e)].
+
 Definition of_response (r : response) : wtree :=
   match r with
   | RequestError => W 90 [] []
   | OutOfFuelR => W 91 [] []
-  | Resp j es cs => W 92 [] [of_json j; W 5 [] (map of_path es); W 5 [] (map of_call cs)]
+  | Resp j es cs => W 92 [] [of_json j; W 5 [] (map of_err es); W 5 [] (map of_call cs)]
   end.
